@@ -48,6 +48,7 @@ ASSUMPTIONS = [
     "a mapping cell naming a constraint for which no constraints row exists is outside the statement and not judged",
     "a constraints table listing only a subset of the sensors, and coordinate/direction tables holding the same rows in different orders, are judged with a relaxed oracle (ValueError or the correct geometry)",
     "'sensors surfaces' column count is not judged (documented as '(p, ?)')",
+    "the (points, 3) tables of geo2 are read by cell position: column headers of mapping / sensors sign / points coordinates are varied independently over bounds.geo2_column_headers in the plot2 part only (displayed displacement judged positionally)",
     "optional arguments of def_geo1/def_geo2 are passed as DataFrames (the forms the validators can handle)",
     "corruption labels: invented ones and labels borrowed from another table of the same set (listed under bounds.corruption_labels); a sensor literally named like a mapping filler ('0') and line / surface numbers pointing outside the point table are outside the statement and not explored",
 ]
@@ -64,6 +65,9 @@ FIXED_C = [1.0, -0.5, 0.25, 2.0, -1.0, 0.5, 1.5, -2.0, 0.75, -0.25, 3.0, -1.5]
 G1_OPT = ["sensors lines", "BG nodes", "BG lines", "BG surfaces"]
 G2_OPT = ["constraints", "sensors sign", "sensors lines", "sensors surfaces", "BG nodes", "BG lines", "BG surfaces"]
 XYZ = ["x", "y", "z"]
+# column-header sets of the three (points, 3) tables of geo2 (points coordinates / mapping / sensors sign); the cells of
+# these tables are addressed by position (row label, column position), the headers are free text of the user's workbook
+HEADERS = [XYZ, ["dir_x", "dir_y", "dir_z"], ["x", "y", "dz"], [1, 2, 3]]
 PART_CODE = {p: i for i, p in enumerate(
     ["flat", "g1", "g1m", "g2map", "g2c", "g2opt", "g2sign", "g2m", "big12", "cor1", "cor2", "plot1", "plot2", "shipped", "reuse"])}
 
@@ -1245,6 +1249,11 @@ def judge_plot2(case, t):
     sign = None if sg is None else [SIGN[i] for i in sg]
     C = [FIXED_C[:n]]
     sheets, exp = geo2_sheets(seed, flat, P, cells, nobj, ("c1",) if uses_c else (), C, flat, sign)
+    hdr = case.get("hdr")
+    if hdr is not None:
+        # column headers of (mapping, sensors sign, points coordinates) drawn from HEADERS; the oracle below stays positional
+        for sheet, h in zip(("mapping", "sensors sign", "points coordinates"), hdr):
+            sheets[sheet] = sheets[sheet].set_axis(list(HEADERS[h]), axis=1)
     states = {k: o for k in G2_OPT}
     states["constraints"] = 2 if uses_c else 0
     states["sensors sign"] = 0 if sg is None else 2
@@ -1280,7 +1289,10 @@ def judge_plot2(case, t):
         exp_segs += [np.array([B[i - 1], B[j - 1]]) for i, j in exp["BG lines"]]
         exp_pts += [b for b in B]
     nonzero = bool(np.any(M * S != 0))
+    ok_before = t.outcomes["plot2:ok"]
     judge_plot(t, case, "plot2", exp_segs, exp_pts, anchors, segs, pts, nonzero)
+    if hdr is not None and nonzero and len(set(hdr)) > 1 and t.outcomes["plot2:ok"] > ok_before:
+        t.outcomes["plot2:column-headers-differ:sign-" + ("omitted" if sg is None else "present")] += 1
     if sg is not None and any(s == -1 for s in sign) and nonzero:
         t.outcomes["plot2:negative-sign-cell"] += 1
     return nonzero
@@ -1622,6 +1634,15 @@ def explicit_cases(part, a, seed):
                     sg = [(i + rot) % 3 for i in range(3 * P)]
                     out.append({"n": n, "P": P, "cells": cells, "sign": sg, "cstr": 1, "mode": 1, "scale": 1.5, "color": color,
                                 "route": "single", "opt": 2})
+        # column headers of mapping / sensors sign / points coordinates: every triple over HEADERS x sign sheet
+        # present / omitted x routes (the tables are read by position, so the headers must not matter)
+        for P, n in ((2, 2), (3, 3)) if a.get("full_p1") else ((2, 2),):
+            cells = list(range(n)) + [n, n + 1, n + 2] + [n + 1] * (3 * P - n - 3)
+            for hdr in itertools.product(range(len(HEADERS)), repeat=3):
+                for sg in ([(i + 1) % 3 for i in range(3 * P)], None):
+                    for route in ("single", "file"):
+                        out.append({"n": n, "P": P, "cells": cells, "sign": sg, "cstr": 1, "mode": 1, "scale": 1.5, "color": "b",
+                                    "route": route, "opt": 2 if P == 3 else 0, "hdr": list(hdr)})
         for chans, ref in a["multi"]:
             flat = ref_flatten(setup_names(chans), ref)
             n = len(flat)
@@ -1845,7 +1866,9 @@ def explore(ctx):
         bounds.append({"part": part, "axes": desc, "cases": n})
     ctx.bounds = {
         "sensor_names": NAMES, "coefficient_alphabet": COEF, "sign_alphabet": SIGN,
-        "mapping_cell_alphabet": "sensor names + ['c1', 0, NaN]", "optional_sheet_states": ["absent", "empty", "present"],
+        "mapping_cell_alphabet": "sensor names + ['c1', 0, NaN]",
+        "geo2_column_headers": {"sets": [[str(h) for h in hs] for hs in HEADERS],
+                                "space": "plot2: every triple (mapping, sensors sign, points coordinates) x sign sheet present/omitted x {def_geo2, def_geo2_by_file}"}, "optional_sheet_states": ["absent", "empty", "present"],
         "corruption_labels": {"invented": ["zz", 99, "c9"],
                               "borrowed_from_another_table (not a sensor name / not the expected label there)": [
                                   "constraint row names c1, c2", "mapping fillers '0', '0.0', 0, 'interp'",
@@ -1870,7 +1893,7 @@ def explore(ctx):
                 "g2map:undefined-constraint(not judged)", "g2c:mapped", "g2c:columns-reordered", "g2opt:ok",
                 "g2opt:constraints-sheet-absent", "g2opt:optional-omitted", "g2sign:kept", "g2m:ok",
                 "big12:geo1-aligned", "big12:geo2-mapped", "plot1:ok", "plot2:ok", "plot2:nonzero-displacement",
-                "plot2:negative-sign-cell",
+                "plot2:negative-sign-cell", "plot2:column-headers-differ:sign-present", "plot2:column-headers-differ:sign-omitted",
                 "cor:geo1:drop-required->ValueError", "cor:geo1:unknown-sheet->ValueError", "cor:geo1:cols->ValueError",
                 "cor:geo1:drop-row->ValueError", "cor:geo1:rename-index->ValueError",
                 "cor:geo1:name-absent-from-coordinates->ValueError",
